@@ -497,9 +497,68 @@ def s_p13(ctx, T, tx, fee, F, A, label):
             ctx.require(z3.SignExt(64, eng.to_bv(tot, 64)) == 50 + n, "[%s] net mint = 100 + n - 50" % label, shape="net mint differs")
 
 
+def metadata_map(aux):
+    """Ok(Some(aux data)) -> {label: (kind, value)}; None when absent"""
+    if aux.variant != "Ok" or models.deref(aux.fields[0]).variant != "Some":
+        return None
+    a = models.deref(models.deref(aux.fields[0]).fields[0])
+    mm = None
+    stack = [a]
+    while stack and mm is None:
+        cur = models.deref(stack.pop())
+        if isinstance(cur, MapM):
+            mm = cur
+        elif isinstance(cur, Agg):
+            stack += list(cur.fields)
+    if mm is None:
+        return None
+    got = {}
+    for k_, p_, v_ in mm.entries:
+        v_ = models.deref(v_)
+        inner = models.deref(v_.fields[0])
+        while isinstance(inner, Agg):
+            inner = models.deref(inner.fields[0])
+        got[k_] = (v_.variant, list(inner.items) if isinstance(inner, VecM) else inner.bytes if isinstance(inner, StrM) else inner)
+    return got
+
+
+def s_p14(ctx, T, tx, fee, F, A, label):
+    """slot_to_time of a slot before / after the chain tip, of tip_slot() - back, and an integer
+    metadata value over the whole i128 range"""
+    eng = ctx.eng
+    at, back = sym(ctx, "at"), sym(ctx, "back")
+    code = ctx.sym_int("code", "i128")
+    lov = sym(ctx, "src.lovelace")
+    eng.assume(lov - F >= 0)
+    args = amap([("at", intarg(T, at)), ("back", intarg(T, back)), ("code", intarg(T, code)), ("alice", A("alice"))])
+    r, why = pipeline(ctx, tx, args, amap([("src", utxo(T, 1, lov))]), fee)
+    if r is None:
+        # slot_to_time refuses a negative slot: the only legitimate failure of this program
+        ctx.require(back > 1000, "[%s] a type-correct resolution fails only for a slot before 0: %s" % (label, why[:160]), shape="pipeline fails on a well-typed program")
+        return
+    body, aux = r
+    ctx.require(back <= 1000, "[%s] a negative slot is refused" % label, shape="slot_to_time of a negative slot accepted")
+    ctx.require(eng.to_bv(body.fields[eng.tdef("TransactionBody", "struct")[1][2].index("fee")], 64) == fee, "[%s] the body fee is the applied fee" % label, shape="body fee differs")
+    # chain cursor of the harness compiler: slot 1000 at 5_000_000 ms; one slot = 1000 ms
+    then_ms = 5000000 + (at - 1000) * 1000
+    back_ms = 5000000 - back * 1000
+    check_outputs(ctx, body, [dict(address=ADDR["alice"], coin=lov - F, datum=("constr", 0, [("int", then_ms), ("int", back_ms)]))], label)
+    fits = z3.And(code >= -(1 << 64), code < (1 << 64))
+    if aux.variant != "Ok":
+        ctx.require(z3.Not(fits), "[%s] a metadata integer the field can hold is accepted" % label, shape="representable metadata integer rejected")
+        return
+    got = metadata_map(aux)
+    ctx.require(got is not None and set(got) == {9}, "[%s] metadata label 9 is emitted (%s)" % (label, got and sorted(got)), shape="metadata differs")
+    if got and 9 in got:
+        kind, v = got[9]
+        ctx.require(kind == "Int", "[%s] the metadata value is an integer" % label, shape="metadata differs")
+        if kind == "Int":
+            ctx.require(z3.And(fits, eng.to_bv(v, 128) == code), "[%s] the metadata integer is the argument's value" % label, shape="metadata integer differs")
+
+
 SPECS = {"p01_int_arith": s_p01, "p02_asset_arith": s_p02, "p03_datum_spread": s_p03, "p04_mint_meta": s_p04,
          "p05_lists_concat": s_p05, "p06_locals_env": s_p06, "p07_time": s_p07, "p08_two_inputs": s_p08,
-         "p09_record_order": s_p09, "p10_negate_parens": s_p10, "p11_policy_contexts": s_p11, "p12_nested_access": s_p12, "p13_concat_mint_net": s_p13}
+         "p09_record_order": s_p09, "p10_negate_parens": s_p10, "p11_policy_contexts": s_p11, "p12_nested_access": s_p12, "p13_concat_mint_net": s_p13, "p14_time_back_meta": s_p14}
 
 
 def _h(name, fn, bounds, tier="quick", **kw):
